@@ -393,9 +393,13 @@ func (run *vc36Run) enumerate(thorough bool) {
 		for _, name := range sp {
 			c.Count("crash_inside_"+name, 1)
 		}
+		vc36CountBlockDataCrashPoint(run, "", lg, k)
 		kind, off := "end", 0
 		if k < len(lg) {
 			kind = lg[k].kind
+			if cl := vc36WriteClass(lg[k]); cl != "" {
+				kind = cl
+			}
 		}
 		for _, r := range run.rec.ranges {
 			if r.start < k && k < r.end && (off == 0 || k-r.start < off) {
@@ -517,6 +521,24 @@ func TestVerifC36(t *testing.T) {
 	r.Floor("cont_reimport_header_already_in_database", 50) // a re-import met the header a half-done finalisation left behind
 	r.Floor("cont_finalisations", 200)
 	r.Floor("crash_pairs_backend_pebble", 10)
+	// dot/sync's block data writes around an import (zz_verif_c36_bdata_test.go)
+	r.Floor("store_trie_with_header_calls", 60)
+	r.Floor("blockdata_calls", 60)
+	r.Floor("blockdata_calls_late_headerless", 25)
+	r.Floor("blockdata_late_writes_for_block_persisted_in_database", 8) // late receipt / message queue of a block finalised meanwhile
+	r.Floor("blockdata_receipt_written", 40)
+	r.Floor("blockdata_message_queue_written", 40)
+	r.Floor("crash_first_lost_write_is_receipt", 40)
+	r.Floor("crash_first_lost_write_is_message_queue", 40)
+	r.Floor("crash_between_receipt_and_message_queue_of_a_block", 30)
+	r.Floor("crash_inside_block_data", 15)
+	r.Floor("crash_inside_block_data_late", 12)
+	r.Floor("cont_blockdata_half_written_pair_completed", 30) // the re-delivery after such a crash wrote the missing half
+	r.Floor("cont_blockdata_receipt_already_in_database_skipped", 500)
+	r.Floor("cont_blockdata_late_writes_for_block_persisted_in_database", 200)
+	r.Floor("pair_second_crash_first_lost_write_is_receipt", 40)
+	r.Floor("pair_second_crash_first_lost_write_is_message_queue", 40)
+	r.Floor("pair_second_crash_between_receipt_and_message_queue_of_a_block", 20)
 
 	fixed := vc36FixedPlans()
 	r.Fixed("fixed", len(fixed), func(c *vcommon.Case) { vc36RunScenario(c, fixed[c.Idx], r.Thorough()) })
